@@ -402,8 +402,14 @@ def runs_of(tr: Trace) -> list[dict]:
             out.append(cur)
         elif ev[1] == "stop" and cur is not None and cur["stop_tick"] is None:
             cur["stop_tick"], cur["stop_pos"] = ev[0], pos
+            # which command ended the run: the one whose cancel_all_commands call came last before on_stop (with two
+            # requests close together the System State alone does not tell); fallback: the state before
+            marks = [e2[2] for e2 in tr.events[cur["start_pos"]:pos] if e2[1] == "cancel_all"]
             prev = tr.by_no(ev[0] - 1)
-            cur["kind"] = "Restart" if (prev is not None and prev.state == "Restarting") else "Stop"
+            if marks and marks[-1] in ("Stop", "Restart"):
+                cur["kind"] = marks[-1]
+            else:
+                cur["kind"] = "Restart" if (prev is not None and prev.state == "Restarting") else "Stop"
     return out
 
 
